@@ -28,6 +28,9 @@ type c05Prog struct {
 	files map[string]string // name -> content
 	args  []string          // fc arguments ("@foi" = pkg_all.foi)
 	free  int               // free-running repetitions with the unhooked binary (0 = 20)
+	// identityOnly: only the all-identity schedule is run under the hook (a program with thousands of
+	// enumerations); the free-running repetitions are what it is there for
+	identityOnly bool
 }
 
 // c05DecompositionFamily: one function with two un-annotated parameters whose types come from a slice
@@ -141,6 +144,19 @@ func c05RealPrograms(sc *impl.Scratch, thorough bool) []c05Prog {
 			sb.WriteString(d.src + "\n")
 		}
 		out = append(out, c05Prog{name: "c07-pool", files: map[string]string{"t.fo": sb.String()}, args: []string{"t.fo"}, free: 3})
+	}
+	// a LARGE file: 320 root statements, each function with a union match that binds a payload (temporaries drawn
+	// from counters during emission) and a record literal.  Anything that depends on the size of a file - batching,
+	// worker pools, chunked emission - shows only here; what such code does is not under the dictionary scheduler,
+	// so the program runs under the identity schedule and 20 free-running repetitions (seed C05f: root statements
+	// emitted on four goroutines from 256 statements on)
+	{
+		var sb strings.Builder
+		sb.WriteString("package main\n\ntype Sh =\n  | Ci of int\n  | Re of int*int\n  | No\n\ntype Pt = {X: int; Y: int}\n\n")
+		for i := 0; i < 320; i++ {
+			fmt.Fprintf(&sb, "let area%d (s:Sh) =\n  match s with\n  | Ci r -> r * %d\n  | Re p ->\n    let (a, b) = p\n    a * b\n  | No ->\n    let q = {X=%d; Y=0}\n    q.X\n\n", i, i+1, i)
+		}
+		out = append(out, c05Prog{name: "large-file-320-definitions", files: map[string]string{"t.fo": sb.String()}, args: []string{"t.fo"}, identityOnly: true})
 	}
 	if thorough {
 		if rec, err := c04Recipe(filepath.Join(sc.Src, "fc", "fc_all.sh")); err == nil {
@@ -329,6 +345,9 @@ func c05Explore(c *core.Ctx, sc *impl.Scratch, fcv, fc string, pr *c05Prog, boun
 			site(d.caller, d.n)
 		}
 		curObs, curFiles = c05Observe(dir, r)
+	}
+	if pr.identityOnly {
+		bound = 0
 	}
 	st := explore.Explore(bound, drv, func(ch *explore.Chooser) bool {
 		c.Count(1, 0, 0, 1)
